@@ -26,6 +26,11 @@ func (r *yieldRewriter) rewriteRanges(block *ast.BlockStmt) {
 	astutil.Apply(block, nil, func(c *astutil.Cursor) bool {
 		switch n := c.Node().(type) {
 		case *ast.RangeStmt:
+			if _, labelled := c.Parent().(*ast.LabeledStmt); labelled {
+				// the iterator declaration can't be inserted before a labelled statement;
+				// labels only survive inside plain func lits / trival stmts, where native range is fine
+				return true
+			}
 			do := func(ctor string, arg ast.Expr) {
 				factory := r.SeqSelect(ctor)
 				iter := X.Call(factory, arg)
